@@ -20,6 +20,10 @@ class Pruned(Exception):
     """path abandoned: retry bound of a Las-Vegas loop reached"""
 
 
+class SolverUnknown(Exception):
+    """a validity query inside a stub / ghost check came back `unknown`"""
+
+
 class GhostViolation(Exception):
     def __init__(self, kind, text):
         super().__init__(f'{kind}: {text}'); self.kind, self.text = kind, text
@@ -67,7 +71,10 @@ class Ctx:
         return self.solver.check(*extra)
 
     def valid(self, f):
-        return self.solver.check(z3.Not(f)) == z3.unsat
+        r = self.solver.check(z3.Not(f))
+        if r == z3.unknown:
+            raise SolverUnknown(str(f)[:120])        # never turned into "not valid": an undecided query is undecided (exit 2), not a violation
+        return r == z3.unsat
 
     def branch(self, cond, retry_if=None):
         """decide a Boolean the real code branches on; both outcomes are explored (re-execution)"""
@@ -422,6 +429,12 @@ def explore(build, check, max_paths=5000, prepare=None):
             res['pruned'] += 1
             trace = list(C.trace)
             for i in range(base, len(trace)): plans.append(trace[:i] + [not trace[i]])
+            continue
+        except SolverUnknown as u:
+            trace = list(C.trace)
+            res['failures'].append((f'solver-unknown:{u}', trace, 'unknown', None))
+            for i in range(base, len(trace)): plans.append(trace[:i] + [not trace[i]])
+            res['paths'] += 1
             continue
         except GhostViolation as g:
             trace = list(C.trace)
